@@ -77,7 +77,12 @@ def run(ctx):
     for mode in ("max", "all"):
         tpath = os.path.join(vlib.WORK, f"c18-trace-{mode}-{os.getpid()}.ndjson")
         p = vlib.run_bin("amv", ["rid-conc", tpath, runs, ctx.seed + (0 if mode == "max" else 7), mode])
-        parse_report(p)
+        rep2 = parse_report(p)
+        if mode == "max":
+            ctx.cov["fast_race_rounds"] = rep2.get("fast_rounds", 0)
+            for v in rep2.get("fast_violations", []):
+                ctx.violation("C18/fast-race", "4 threads offering ids to one AtomicReloadId: the final id is not the maximum, or the number of TRUE answers does not match the growths",
+                              {"round": v})
         verdict, tr, detail = vlib.trace_check("Trace_ReloadId", f"Trace_ReloadId_{mode}.cfg", tpath)
         if verdict == "error":
             raise vlib.ToolError(f"trace validation failed to run: {detail}")
